@@ -35,6 +35,13 @@ class Prop(common.PropertyCheck):
                    'sc_kind': rng.choice(['lambda', 'lambda', 'fitted']), 'nozero': rng.random() < 0.3,
                    # channels that hold no event at either limit (the others saturate at both ends)
                    'nolimit': [c for c in range(D) if rng.random() < 0.35]}
+        # channels designated by negative positions (counted from the last channel)
+        for i in range(self.budget(16, 200)):
+            D = rng.randrange(2, 5)
+            yield {'D': D, 'res': [rng.choice([256, 1024, 4096, 65536]) for _ in range(D)], 'pne': [rng.choice(['0,0', '4,1', '3,1']) for _ in range(D)],
+                   'gain': [rng.choice([None, '2', '0.5']) for _ in range(D)], 'm': [rng.uniform(0.85, 1.25) for _ in range(D)], 'b': [rng.uniform(0, 7) for _ in range(D)],
+                   'rfi_ch': ['one', 'subset', 'subset'][i % 3], 'mef_ch': 'subset', 'override': False, 'sc_all': False, 'seed': rng.randrange(1 << 30),
+                   'sc_kind': 'lambda', 'nozero': False, 'nolimit': [], 'negpos': True}
         # more events than channel values, resolutions that are not powers of two (table-driven implementations)
         for _ in range(self.budget(12, 150)):
             yield {'D': 2, 'res': [rng.choice([1000, 777, 3000, 8000, 1023, 5000]), rng.choice([1000, 1023, 3000])],
@@ -75,11 +82,13 @@ class Prop(common.PropertyCheck):
         D = case['D']
         names = list(d.channels)
 
-        def pick(kind):
+        def pick(kind, neg=False):
             if kind == 'all':
                 return None
             k = 1 if kind == 'one' else r.randrange(1, D + 1)
             cols = r.sample(range(D), k)
+            if neg:
+                return [c - D if (i == 0 or r.random() < 0.5) else (names[c] if r.random() < 0.5 else c) for i, c in enumerate(cols)]
             return [names[c] if r.random() < 0.5 else c for c in cols]
         out = {'problems': []}
 
@@ -109,11 +118,11 @@ class Prop(common.PropertyCheck):
         def cols_of(ch):
             if ch is None:
                 return list(range(D))
-            return [names.index(c) if isinstance(c, str) else c for c in ch]
+            return [names.index(c) if isinstance(c, str) else c % D for c in ch]
 
         try:
             # --- to_rfi
-            ch1 = pick(case['rfi_ch'])
+            ch1 = pick(case['rfi_ch'], neg=bool(case.get('negpos')))
             kw = {}
             if case['override'] and ch1 is not None:
                 kw = {'amplification_type': [r.choice([(4, 1), (0, 0), (3, 1), None]) for _ in ch1],
